@@ -389,3 +389,23 @@ Definition run_g2r (mr mp : rmol) : tok :=
       let b := graph_to_rsmi_graphs g h (Some (its_construct g h)) in
       L [tmgraph (fst a); tmgraph (snd a); tmgraph (fst b); tmgraph (snd b)]
   end.
+
+(** ** rsmi_to_its(rsmi, node_attrs=L) for a caller's list L that contains atom_map: MolToGraph stores only the selected
+    attributes, ITSGraph then fills typesGH (always in the legacy order element, aromatic, hcount, charge, neighbors,
+    whatever the ORDER of L) with the core defaults for the attributes the graphs do not carry *)
+Definition fill_sel (s : asel) (a : gnode) : gnode :=
+  GN (if p_el s then g_el a else EL_STAR) (if p_ar s then g_arom a else false) (if p_hc s then g_hc a else 0)
+     (if p_ch s then g_ch a else 0) (if p_nb s then g_nb a else None) (g_amap a).
+Definition fill_graph (s : asel) (g : mgraph) : mgraph := LG (map (fun p => (fst p, fill_sel s (snd p))) (gnodes g)) (gedges g).
+Definition rsmi_to_its_sel (s : asel) (mr mp : rmol) : option its :=
+  match rsmi_to_graph_m mr mp with
+  | Some (g, h) => Some (its_construct (fill_graph s g) (fill_graph s h))
+  | None => None
+  end.
+(** the ITS and what its_to_rsmi then writes *)
+Definition run_str_sel (s : asel) (mr mp : rmol) : tok :=
+  match rsmi_to_its_sel s mr mp with
+  | None => L []
+  | Some J => let gs := its_to_graphs J in
+              L [tits J; tmgraph (fst (its_decompose J)); tmgraph (snd (its_decompose J)); tmgraph (fst gs); tmgraph (snd gs)]
+  end.
